@@ -4,7 +4,7 @@ import numpy as np, pandas as pd
 from core import Result
 import proto, gen, implutil
 
-THEOREMS = ['C20_offset', 'C20_markers_sound', 'C20_markers_complete', 'C20_mask_sound', 'C20_mask_complete', 'C20_truncation_counterexample']
+THEOREMS = ['C20_offset', 'C20_markers_sound', 'C20_markers_complete', 'C20_mask_sound', 'C20_mask_complete', 'C20_truncation_counterexample', 'C20_routing']
 RULE = ("cycle tables of both centrings from generated signals (fs in {100, 128, 250, 1000}) x x-limits None or on the sample grid: random windows, window edges exactly on a "
         "side extremum / centre extremum, windows without a complete cycle, grid times whose product with fs is not exact in float64 (0.29 s at 100 Hz) x plot_only_result x interp x "
         "the cyclepoint-kind switches; plot_cyclepoints_df, plot_burst_detect_summary (also through Bycycle.plot) and plot_burst_detect_param under the Agg backend, observed "
